@@ -325,7 +325,11 @@ func bodyInlinable(fd *ast.FuncDecl, obj *types.Func, info *types.Info) bool {
 	return ok
 }
 
-// classifyUse decides whether the use `id` of a helper is a call in a position that can be inlined.
+// classifyUse decides whether the use `id` of a helper is a call in a position that can be inlined: the call is
+// evaluated exactly once when its host statement is reached, and no other call or channel receive of that statement
+// is evaluated before it (Go orders only calls, method calls and communication operations; operand reads are not
+// ordered relative to them), so evaluating it — receiver, arguments, body — just before the host statement keeps the
+// order of all effects, up to a run-time panic raised by an operand in between.
 func classifyUse(id *ast.Ident, parents map[ast.Node]ast.Node, info *types.Info) (*inlineSite, string) {
 	var n ast.Node = id
 	p := parents[n]
@@ -348,7 +352,6 @@ func classifyUse(id *ast.Ident, parents map[ast.Node]ast.Node, info *types.Info)
 	if call.Ellipsis != token.NoPos {
 		return nil, "variadic call"
 	}
-	// enclosing function name (for the log)
 	inFunc := ""
 	for q := ast.Node(call); q != nil; q = parents[q] {
 		if fd, ok := q.(*ast.FuncDecl); ok {
@@ -357,75 +360,120 @@ func classifyUse(id *ast.Ident, parents map[ast.Node]ast.Node, info *types.Info)
 		}
 	}
 	site := &inlineSite{call: call, inFunc: inFunc}
-	cp := parents[call]
-	neg := false
-	if u, ok := cp.(*ast.UnaryExpr); ok && u.Op == token.NOT {
-		neg = true
-		cp = parents[u]
-	}
-	_ = neg
-	var stmt ast.Stmt
-	switch x := cp.(type) {
-	case *ast.ExprStmt:
-		if neg {
-			return nil, "call in an expression"
-		}
-		stmt = x
-	case *ast.AssignStmt:
-		if neg || len(x.Rhs) != 1 || x.Rhs[0] != ast.Expr(call) {
-			return nil, "call is not the only right-hand side"
-		}
-		for _, l := range x.Lhs {
-			if !simpleLhs(l) {
-				return nil, "assignment target is not a plain variable or field"
+	// climb to the innermost statement; refuse conditional or deferred evaluation on the way
+	var child ast.Node = call
+	var simple ast.Stmt
+	for q := parents[call]; q != nil; child, q = q, parents[q] {
+		switch x := q.(type) {
+		case *ast.BinaryExpr:
+			if (x.Op == token.LAND || x.Op == token.LOR) && x.Y == child {
+				return nil, "call is evaluated conditionally (right operand of && or ||)"
+			}
+		case *ast.FuncLit:
+			return nil, "unsupported statement position" // cannot happen: the statement inside the literal is found first
+		case *ast.GoStmt:
+			if x.Call == child {
+				return nil, "helper started with go"
+			}
+		case *ast.DeferStmt:
+			if x.Call == child {
+				return nil, "helper deferred"
 			}
 		}
-		stmt = x
-	case *ast.ReturnStmt:
-		if neg || len(x.Results) != 1 {
-			return nil, "call is not the only returned expression"
+		if st, ok := q.(ast.Stmt); ok {
+			simple = st
+			break
 		}
-		stmt = x
-	case *ast.IfStmt:
-		if x.Cond != ast.Expr(call) && !(neg && isNotOf(x.Cond, call)) {
-			return nil, "call in an expression"
-		}
-		if x.Init != nil {
-			return nil, "if statement with init"
-		}
-		stmt = x
-	default:
-		return nil, "call in an expression"
 	}
-	// an assignment may itself be the Init of an if/switch: hoisting before that statement keeps the order
-	sp := parents[stmt]
-	switch y := sp.(type) {
+	if simple == nil {
+		return nil, "call outside a statement"
+	}
+	// the region whose expressions are evaluated together with the call, and the statement the prelude goes before
+	var region ast.Node = simple
+	host := simple
+	switch x := simple.(type) {
+	case *ast.ExprStmt, *ast.AssignStmt, *ast.ReturnStmt, *ast.SendStmt, *ast.DeclStmt, *ast.GoStmt, *ast.DeferStmt:
 	case *ast.IfStmt:
-		if y.Init == stmt {
-			stmt = y
-			sp = parents[y]
+		if x.Init != nil || !within(call, x.Cond) {
+			return nil, "unsupported position in an if statement"
+		}
+		region = x.Cond
+	case *ast.SwitchStmt:
+		if x.Init != nil || x.Tag == nil || !within(call, x.Tag) {
+			return nil, "unsupported position in a switch statement"
+		}
+		region = x.Tag
+	case *ast.RangeStmt:
+		if !within(call, x.X) {
+			return nil, "unsupported position in a range statement"
+		}
+		region = x.X
+	default:
+		return nil, "unsupported statement kind"
+	}
+	// a simple statement may be the Init of an if/switch/for: evaluated once, before everything else of that statement
+	switch y := parents[simple].(type) {
+	case *ast.IfStmt:
+		if y.Init == simple {
+			host = y
 		}
 	case *ast.SwitchStmt:
-		if y.Init == stmt {
-			stmt = y
-			sp = parents[y]
+		if y.Init == simple {
+			host = y
 		}
 	case *ast.TypeSwitchStmt:
-		if y.Init == stmt {
-			stmt = y
-			sp = parents[y]
+		if y.Init == simple {
+			host = y
+		} else if y.Assign == simple {
+			return nil, "unsupported position in a type switch"
 		}
-	}
-	switch y := sp.(type) {
-	case *ast.BlockStmt, *ast.CaseClause, *ast.CommClause:
-		// statement list
-		if cc, ok := y.(*ast.CommClause); ok && cc.Comm == stmt {
+	case *ast.ForStmt:
+		if y.Init == simple {
+			host = y
+		} else if y.Post == simple {
+			return nil, "call in a loop's post statement"
+		}
+	case *ast.CommClause:
+		if y.Comm == simple {
 			return nil, "call in a select communication"
 		}
+	}
+	// no call or receive of the region is evaluated before ours
+	early := ""
+	ast.Inspect(region, func(m ast.Node) bool {
+		if m == nil || early != "" {
+			return false
+		}
+		if m == ast.Node(call) {
+			return false // its own operands move with it
+		}
+		if _, ok := m.(*ast.FuncLit); ok {
+			return false
+		}
+		if m.End() > call.Pos() {
+			return true // ancestor or later sibling: descend, ancestors are evaluated after their operands
+		}
+		switch x := m.(type) {
+		case *ast.CallExpr:
+			if !pureCall(x, info) {
+				early = "another call is evaluated before the helper call in the same statement"
+			}
+		case *ast.UnaryExpr:
+			if x.Op == token.ARROW {
+				early = "a channel receive is evaluated before the helper call in the same statement"
+			}
+		}
+		return true
+	})
+	if early != "" {
+		return nil, early
+	}
+	switch y := parents[host].(type) {
+	case *ast.BlockStmt, *ast.CaseClause, *ast.CommClause:
 	case *ast.LabeledStmt:
-		// fine: prelude goes after the label
+		return nil, "labelled statement"
 	case *ast.IfStmt:
-		if y.Else == stmt {
+		if y.Else == host {
 			site.wrap = true
 		} else {
 			return nil, "unsupported statement position"
@@ -433,8 +481,28 @@ func classifyUse(id *ast.Ident, parents map[ast.Node]ast.Node, info *types.Info)
 	default:
 		return nil, "unsupported statement position"
 	}
-	site.stmt = stmt
+	site.stmt = host
 	return site, ""
+}
+
+func within(n ast.Node, root ast.Node) bool {
+	return root != nil && n.Pos() >= root.Pos() && n.End() <= root.End()
+}
+
+// pureCall: conversions and the builtins without side effects.
+func pureCall(c *ast.CallExpr, info *types.Info) bool {
+	if tv, ok := info.Types[c.Fun]; ok && tv.IsType() {
+		return true
+	}
+	if id, ok := ast.Unparen(c.Fun).(*ast.Ident); ok {
+		if b, ok := info.Uses[id].(*types.Builtin); ok {
+			switch b.Name() {
+			case "len", "cap", "new", "make", "min", "max", "real", "imag", "complex":
+				return true
+			}
+		}
+	}
+	return false
 }
 
 func isNotOf(e ast.Expr, call *ast.CallExpr) bool {
